@@ -352,6 +352,23 @@ T = {
  'C17-12': ('C17', GRPCGCP, 'decodeAPIConfig wraps the protojson error in an if-scoped err that shadows the named result: returns (nil, nil)', 'any JSON that protojson rejects: accepted with a nil ApiConfig, balancer runs on defaults'),
  'C20-11': ('C20', GRPCGCP, 'the two push loops merged into pushAddrs(map, addrs) walking the VALUES and using scRef.subConn', 'refresh in flight and a resolver update: the old SubConn is pushed twice, the replacement keeps the old list'),
  'C20-12': ('C20', GRPCGCP, 'addrs threaded as a parameter; newSubConn reads gb.addrs before taking gb.mu', 'picker-initiated growth that snapshots the list, blocks behind a resolver update and then creates from the stale snapshot'),
+ # ---- wave 7 (as wave 6, for the eight properties not in wave 6)
+ 'C05-13': ('C05', GRPCGCP, 'UpdateClientConnState clean-up: `cfg, err := balancerConfigFrom(ccs)` inside the if shadows err; the foreign-config error is never returned', 'first resolver update with a non-nil BalancerConfig of a foreign type: gb.cfg stays nil, newSubConnLocked dereferences it'),
+ 'C05-14': ('C05', GRPCGCP, 'Pick split into a pickedCall struct with methods; bindReplyKeys lost the interceptor-context test and evaluates c.gcpCtx.replyMsg as an argument', 'a successful BIND call picked with a context that has no interceptor value: nil dereference in Done'),
+ 'C10-8': ('C10', GRPCGCP, 'refresh completion extracted (completeRefresh, refreshed, remapSubConn); ref.refreshCnt++ moved after ref.mu.Unlock()', 'a replacement turning READY concurrently with an RPC completion on the same channel (gotResp/getRefreshCnt): -race'),
+ 'C10-9': ('C10', GRPCGCP, 'SendMsg split into stream(m): the deferred closure that records initStreamErr and broadcasts is registered before cs.Lock()/defer cs.Unlock()', 'stream creation fails concurrently with a RecvMsg on the same stream: initStreamErr written without the mutex: -race'),
+ 'C11-8': ('C11', GRPCGCP, 'keysFromMessage restructured; the hand-written dereference became reflect.Indirect (pointers only)', 'a path reaching or crossing an interface-typed field: error instead of the keys'),
+ 'C11-9': ('C11', GRPCGCP, 'dereference moved to the callers (fieldByPathSegment returns the field already dereferenced): the Slice test runs after it', 'a singular field of type *[]T or an interface holding a []T: fanned out like a repeated field, keys instead of an error'),
+ 'C12-13': ('C12', GRPCGCP, 'RecvMsg split into awaitStream() and wakeOnDone(); `defer cancel()` of the derived context sits in the helper', 'RecvMsg asleep in cond.Wait when the call context ends and no SendMsg follows: never woken'),
+ 'C12-14': ('C12', GRPCGCP, 'SendMsg via streamForSend with named results: cs.ClientStream = stream is stored also when creation failed', 'creation fails with a non-nil stream value next to the error, then another SendMsg: sends on the broken stream (panic)'),
+ 'C13-13': ('C13', ME, 'SetEndpoints via retain(ids) (added []string); new endpoints get priority = index within `added`', 'an endpoint appended behind existing ones and later available while a higher one is current: Current() jumps to it'),
+ 'C13-14': ('C13', ME, 'SetEndpoints around index map[string]int; membership tested with `index[id] != 0`', 'a surviving endpoint listed first is deleted and re-created: its state / recovery window is lost'),
+ 'C16-14': ('C16', GRPCGCP, 'UpdateMultiEndpoints split; dropObsoleteMEs returns early when the number of MultiEndpoints before the insertions ≤ number wanted', 'an accepted update that removes k names and adds ≥ k: the removed MultiEndpoint stays, its pool is closed: later RPC panics'),
+ 'C16-15': ('C16', GRPCGCP, 'NewGCPMultiEndpoint with named results and one deferred clean-up `if err != nil && gme != nil { gme.Close() }`; the error exit is `return nil, err`', 'construction failing at the 2nd or later dial: earlier pools stay open, monitors keep running'),
+ 'C18-9': ('C18', PROBER, 'parseT4T7Latency split; the value is parsed with time.ParseDuration(text+"ms")', 'a gfet4t7 value with a fraction or unit letters (1.5, 2s5): accepted instead of reported as malformed'),
+ 'C18-10': ('C18', PROBER, 'generatePayload fills the payload from rand.Uint64 words and mirrors each word into the hash; the last partial word is hashed in full', 'payload_size not divisible by 8: the hash covers bytes that are not in the payload'),
+ 'C19-9': ('C19', CSUM, 'prependChecksum builds the output in place when the payload has ≥ 6 spare bytes; the CRC is computed after the shifting copy', 'wrapped encoding with cap−len ≥ 6 (dynamicpb, appending encoders): checksum of the shifted bytes'),
+ 'C19-10': ('C19', CSUM, 'Unmarshal decodes through a proto.Buffer (UnmarshalMerge semantics) after reading the checksum field', 'decoding into a non-empty (reused) message: merged instead of replaced'),
 }
 
 ENV = dict(os.environ, GOFLAGS='-mod=mod', GOPROXY='off', GOSUMDB='off', GOTOOLCHAIN='local')
@@ -361,7 +378,7 @@ def sh(cmd, **kw):
     return subprocess.run(cmd, shell=True, text=True, capture_output=True, env=ENV, **kw)
 
 
-RACE = {'C10-2', 'C10-6', 'C10-7'}
+RACE = {'C10-2', 'C10-6', 'C10-7', 'C10-8', 'C10-9'}
 
 
 def wave_of():
